@@ -61,12 +61,12 @@ CHECKS = {
         design="4/C05",
     ),
     "C02": dict(
-        specs=["SettingNames.tla", "SettingsR.tla", "Settings.tla", "SettingsIO.tla"],
+        specs=["SettingNames.tla", "SettingsR.tla", "Settings.tla", "SettingsIO.tla", "Views.tla"],
         text="TLC checks that the position machine of iter_settings (peek, structure read, User-Agent continuation loop) decodes "
         "exactly SettingsR.Decode on every cut of every sequence of menu records and on all short raw strings, with bounded "
         "position and termination; TLC computes, at the real User-Agent length, the expected records and name/const/enum views "
         "for every menu sequence and the harness compares all eight views of BeaconConfig; random TLV streams (any u16 index, "
-        "lengths to 65535, duplicates, cuts, garbage) and sample blocks are decoded by the library and judged by TLC.",
+        "lengths to 65535, duplicates, cuts, garbage) and sample blocks are decoded by the library and judged by TLC. Views.tla is the four cached mapping views (name / index keyed, raw / pretty) as a state machine over every order of first reads on blocks with repeated indices and both meanings of index 36; the variant that re-keys one cached view from another is rejected, and every read order of the dumped graph is replayed on the real BeaconConfig.",
         note="Trusted: TLC, SettingsR, the frozen name table SettingNames.tla. Pretty-printed values are only compared for "
         "settings without a pretty-printer (C03 covers decoders). Duplicate keys follow dict semantics.",
         technique="TLA+ position-machine model vs reference decoder (TLC); TLC-computed expectation table replayed; decodings judged by TLC",
@@ -140,7 +140,7 @@ CHECKS = {
         "parameter maps over syntax-relevant bytes x header maps x all bodies over {CR,LF,NUL,a} x status lines x malformed "
         "start lines), that it recovers exactly the parts - the wire form is unambiguous. The same messages (wire bytes from "
         "TLC) are parsed by parse_raw_http and compared; random messages with binary bodies are built by the harness, their "
-        "wire form and the parsed parts judged by TLC.",
+        "wire form and the parsed parts judged by TLC. RawHttp.tla also carries the InflationLaw (a part made longer with a delimiter-free filler makes exactly that part of the parse longer; TLC: 1..3 bytes on every scenario), which is what the harness uses to inflate the same scenarios beyond 64 KiB.",
         note="Trusted: TLC, RawHttpR/RawHttp.tla. Paths are origin-form without '?', '#' and not starting with '//'; keys unique.",
         technique="TLA+ reference renderer + parser checked by TLC; TLC-rendered messages replayed; random messages judged by TLC",
         design="4/C16",
